@@ -36,6 +36,14 @@ var (
 	// It says something about that moment's load, nothing about the
 	// question, so it must not be remembered for the next client.
 	ErrResolutionShed = errors.New("resolution shed at in-flight capacity")
+
+	// ErrNameserverLookupLoop identifies a delegation left without a usable
+	// server because the request tree's own nameserver-address loop guard
+	// skipped its NS hosts: the tree is already resolving those very names
+	// further up. That is a fact about this tree's path, not about the zone
+	// or its servers - an enclosing lookup of the same tree, or any fresh
+	// request, may resolve them through another route.
+	ErrNameserverLookupLoop = errors.New("nameserver address lookup loop")
 )
 
 // ResolutionAttemptLimitError records the tuple rejected by the RFC 9520
@@ -419,6 +427,7 @@ func IsRequestLocalResolutionError(err error) bool {
 		errors.Is(err, ErrResolutionAttemptLimit) ||
 		errors.Is(err, ErrFailureProbeLimit) ||
 		errors.Is(err, ErrResolutionShed) ||
+		errors.Is(err, ErrNameserverLookupLoop) ||
 		errors.Is(err, ErrMaxRecursion) ||
 		errors.Is(err, context.Canceled) ||
 		errors.Is(err, context.DeadlineExceeded)
